@@ -385,3 +385,44 @@ pub fn run_seq(rep: &mut Report) {
     rep.extra("sequential_depth", json!(depth));
     rep.extra("op_alphabet", json!(OPS.iter().map(|o| format!("{o:?}")).collect::<Vec<_>>()));
 }
+
+
+/// Classes of the sequential oracle that are about the *content* of the vector (C08) rather than
+/// about destruction (C11).
+const C08_CLASSES: [&str; 6] = ["index", "count", "content", "snapshot", "under_reporting_accepted", "zero_liar_accepted"];
+
+/// Child mode for the C08 check (the loom parent merges this): every history of the C11
+/// enumeration, judged only by the content oracle (indices handed out, count, every lookup and
+/// the snapshot iterator against the reference model; lying iterators must be rejected or leave
+/// holes, never publish an index nobody reserved).
+pub fn c08_seq_child(tier: &str) -> ! {
+    crate::dom::quiet_panics();
+    let mut rep = Report::new("C08", tier);
+    run_seq(&mut rep);
+    let mut viols = Vec::new();
+    for (sig, class) in rep.acc.violations.iter() {
+        let cl = sig.rsplit('/').next().unwrap_or("");
+        if C08_CLASSES.contains(&cl) {
+            viols.push(json!({"sig": format!("C08/seq/{cl}"), "what": class.what, "count": class.count, "examples": class.examples}));
+        }
+    }
+    println!(
+        "{}",
+        json!({"histories": rep.acc.evaluations, "transitions": rep.acc.transitions, "nontrivial": rep.acc.nontrivial, "outcomes": rep.acc.outcomes.len(),
+               "samples": rep.acc.samples.iter().take(2).collect::<Vec<_>>(), "violations": viols})
+    );
+    std::process::exit(0)
+}
+
+pub fn replay_case_c08(c: &Value, acc: &mut Acc) {
+    let mut inner = Acc::new();
+    replay_case(c, &mut inner);
+    for (sig, class) in inner.violations {
+        let cl = sig.rsplit('/').next().unwrap_or("").to_owned();
+        if C08_CLASSES.contains(&cl.as_str()) {
+            for ex in class.examples {
+                acc.violation(&format!("C08/seq/{cl}"), &class.what, || ex);
+            }
+        }
+    }
+}
